@@ -11,7 +11,10 @@
 (*   strong, weak, all, scd, wcd, sgroups, outc, inc, finder               *)
 (*                the coupling sets and derived queries                    *)
 (*   runs         executions of MDAChain / MDOChain / MDOParallelChain /   *)
-(*                MDOInitializationChain: status, output data, order       *)
+(*                MDOInitializationChain: status, output data, order;      *)
+(*                kind "mdaopt": MDAChain under an option record chosen by *)
+(*                TLC (SelectedOptions), with the sub coupling structures  *)
+(*                passed and the structure each inner MDA ended up with    *)
 (* TLC rebuilds the system from the code with the operators of DepGraph    *)
 (* and evaluates the relation ValidSequence, the documented coupling sets  *)
 (* and the simultaneous solution Mono on the reported values.  One state   *)
@@ -74,9 +77,37 @@ Exact(gg, run, mono) ==
   /\ run.integral
   /\ \A v \in Names(gg) : \E k \in 1..Len(run.names) : run.names[k] = v /\ run.vals[k] = mono[v]
 
-RunClauses(gg, run, mono) ==
+(* an MDAChain run under one of the option records TLC selected for the instance (kind "mdaopt"):  *)
+(* the option record, the user-provided sub coupling structures (positions of their disciplines),  *)
+(* the inner MDAs (members, disciplines of the coupling structure each one uses), the log, the data *)
+SetsOf(ss) == [k \in 1..Len(ss) |-> ToSet(ss[k])]
+OptClauses(gg, r, run, mono) ==
+  LET kind == run.tag
+      seqOK == ValidSequence(gg, r.seq)
+      plan == InnerMDAPlan(gg, r.seq, run.opt.sub)
+  IN
+  Fail(kind, "Applicable",          \* r.sel: the constants OptMod, NInner, SampleKey of the set the instance came from
+       Consistent(gg) /\ run.opt \in SelectedOptionsP(gg, code, r.sel[1], r.sel[2], r.sel[3])) \cup
+  Fail(kind, "UserStructures",      \* the harness passed the structures the specification names, or none
+       seqOK => (SetsOf(run.user) = (IF run.opt.sub = "user" THEN UserStructures(gg, r.seq) ELSE <<>>))) \cup
+  Fail(kind, "Runs", run.status = "ok") \cup
+  (IF run.status # "ok" \/ ~Consistent(gg) THEN {}
+   ELSE Fail(kind, "Exact", Exact(gg, run, mono)) \cup
+        Fail(kind, "ExecutionOrder", ChainLogOK(gg, run.log, run.opt.init)) \cup
+        Fail(kind, "InnerMDAs",
+             /\ {ToSet(run.mdas[k]) : k \in 1..Len(run.mdas)} = StrongGroups(gg)
+             /\ Len(run.mdas) = Cardinality(StrongGroups(gg))
+             /\ \A k \in 1..Len(run.mdas) : Len(run.mdas[k]) = Cardinality(ToSet(run.mdas[k]))) \cup
+        Fail(kind, "InnerMDAOrder",   \* inner_mdas: "the ordered MDAs": the k-th one solves the k-th group needing one
+             seqOK => (SetsOf(run.mdas) = [k \in 1..Len(plan) |-> ToSet(plan[k].members)])) \cup
+        Fail(kind, "InnerStructures", \* every inner MDA works with a coupling structure of its own group
+             (seqOK /\ Len(run.mdas) = Len(plan) /\ Len(run.mdacs) = Len(plan)) =>
+                \A k \in 1..Len(plan) : ToSet(run.mdacs[k]) = plan[k].structure))
+
+RunClauses(gg, r, run, mono) ==
   LET kind == run.kind IN
-  IF kind \in {"mdachain", "mdachain_par", "mdachain_gs"} THEN
+  IF kind = "mdaopt" THEN OptClauses(gg, r, run, mono)
+  ELSE IF kind \in {"mdachain", "mdachain_par", "mdachain_gs"} THEN
       Fail(kind, "Applicable", Consistent(gg)) \cup
       Fail(kind, "Runs", run.status = "ok") \cup
       (IF run.status # "ok" \/ ~Consistent(gg) THEN {}
@@ -115,7 +146,7 @@ Failed(r) ==
      (IF r.status # "ok" THEN {}
       ELSE SeqClauses(gg, "sequence", r.seq) \cup SeqClauses(gg, "dgsequence", r.dgseq)
            \cup CouplingClauses(gg, r)
-           \cup UNION {RunClauses(gg, r.runs[k], mono) : k \in 1..Len(r.runs)})
+           \cup UNION {RunClauses(gg, r, r.runs[k], mono) : k \in 1..Len(r.runs)})
 
 RInit ==                        \* one behaviour per report
   /\ rid \in 1..Len(Reports)
